@@ -25,6 +25,9 @@ def key_of(step, clause):
             vol = [i for i in a['ids'] if i not in ('N2', 'Glucose')]
             kind += ',single' if len(vol) == 1 else ',multi'
             kind += '+solute' if 'Glucose' in a['ids'] else ''
+            kind += '+gas' if 'N2' in a['ids'] else ''
+            if len(vol) > 1:
+                kind += ',narrow' if step['obs'].get('span6', 10 ** 6) < 50000 else ',wide'       # envelope narrower than 5 % of the pressure
         return 'Flash:measured:%s,%s,%s:%s' % (a['family'], 'ideal' if a['ideal'] else 'gamma', kind, clause)
     return 'Flash:%s:%s%s:%s' % (step['op'], a.get('region', ''), ',again' if a.get('again') else '', clause)
 
@@ -63,7 +66,7 @@ def measured_case(seed):
         if len(comp) != 2:
             kind = 'TP'
     obs = df.measured(fam, ideal, comp, kind, rng.random(), rng.random(), rng.choice([1e-3, 50., 3.]))
-    return dict(op='measured', a=dict(family=fam, ideal=ideal, kind=kind, ids=sorted(comp), tol=1000, hstol=100000 if kind in ('TH', 'TS') else 1000, ftol=100000, w=[0] * n, T=1, P=1),
+    return dict(op='measured', a=dict(family=fam, ideal=ideal, kind=kind, ids=sorted(comp), tol=1000, hstol=100000 if kind in ('TH', 'TS') else 1000, htol=10000 if kind in ('TP', 'PH') else 100000, ftol=100000, w=[0] * n, T=1, P=1),
                 post=dict(w=[0] * n, c=[1, 1]), obs=obs, job=['measured_case', seed])
 
 
